@@ -429,4 +429,29 @@ func init() {
 		Assumptions: append([]string{"math/rand.Shuffle(n, swap) = a finite sequence of swap(i, j) calls with in-range i, j (its documented contract)"}, commonAssumptions...),
 		Explanation: "game.Deal/Burn/InitializeRound/ShuffleCards and the deck builders executed symbolically on opaque symbolic cards",
 	})
+
+	register(&PropSpec{
+		ID: "C10", Pkgs: []string{""},
+		Jobs: func(tier string) []sym.Job {
+			var js []sym.Job
+			cfg := sym.JobConfig{Stubs: map[string]string{"github.com/weedbox/pokerface/combination.CalculatePower": "vStubCalculatePower"}, SortFrontOnlyAbove: 1, MaxSteps: 20000000}
+			shapes := [][]int{{2, 0, 3, 2}, {2, 0, 4, 1}, {2, 0, 5, 1}, {4, 2, 3, 1}, {4, 2, 4, 1}}
+			if tier == "thorough" {
+				shapes = append(shapes, []int{4, 2, 5, 1}, []int{2, 0, 4, 2}, []int{2, 0, 3, 3}, []int{4, 2, 3, 2})
+			}
+			for _, a := range shapes {
+				js = append(js, sym.Job{Pkg: "", Harness: "Harness_C10", Args: a, Cfg: cfg})
+			}
+			return js
+		},
+		AssertPrefix: []string{"C10."},
+		Covers:       func(tier string) []string { return []string{"C10.evaluated"} },
+		Bounds: func(tier string) []string {
+			b := []string{"2 hole cards (any 5 of hole+board) on flop/turn/river and 4 hole cards with exactly 2 required on flop/turn (thorough: river too); concrete distinct cards, the score and category of every selection symbolic (uninterpreted function of the card set), every ordering and tie of scores", "sort.Slice modelled by its contract restricted to the first element (any maximal element may come first); GetAllPowersByPlayer's only caller reads index 0", "1-2 seats (thorough up to 3) for the frame condition"}
+			return b
+		},
+		Outside:     []string{"the evaluator itself (CalculatePower): C03; that it is order-independent and returns a permutation of its input is asserted there", "that the showdown compares exactly Combination.Power is decided by the settlement harness (Harness_Next / C02 oracle reads the same field)", "boards of fewer than 3 cards (no community cards: the statement does not apply)"},
+		Assumptions: append([]string{"CalculatePower replaced by an uninterpreted function of the selection (cut; DESIGN §4 C10)", "the contract of sort.Slice (result sorted w.r.t. less) is trusted for the first element"}, commonAssumptions...),
+		Explanation: "GetAllPossibleCombinations / GetAllPowersByPlayer / CalculatePlayerPower / UpdateCombinationOfAllPlayers executed symbolically with symbolic scores; admissible selections enumerated independently from the rules",
+	})
 }
